@@ -123,6 +123,7 @@ def main(tier):
              sample='%d bits + 64 <= %d' % (bits, K['ISAL_DEF_MAX_HDR_SIZE'] * 8))
     rep.attempt(check_table_cover, rep, mod)
     rep.attempt(check_eob_always, rep, mod)
+    rep.attempt(check_hist_width, rep, mod)
     rep.attempt(check_useable_schedule, rep, mod, K)
     return rep.finish()
 
@@ -219,6 +220,41 @@ def check_useable_schedule(rep, mod, K):
     R.check(set(range(0, 286)) <= loads[0], where, 'the literal/length scan does not visit every symbol 0..285 (visited %d)' % len(loads[0]), key='T-EXTRA-SCHEDULE|litscan', sample='all 286 lit/len symbols visited')
     R.check(cmpk == [K['MAX_BITBUF_BIT_WRITE']], where, 'the total is compared with %s, expected MAX_BITBUF_BIT_WRITE = %d' % (cmpk, K['MAX_BITBUF_BIT_WRITE']), key='T-EXTRA-SCHEDULE|limit',
             sample='sum > %d -> not usable' % K['MAX_BITBUF_BIT_WRITE'])
+
+
+def check_hist_width(rep, mod):
+    """the histograms handed to the table builders count up to 2^64 occurrences; the builders decide "symbol absent" and the tree weights from them"""
+    R = rep.rule('L-HIST64-WIDTH', 'in the heap initialisers that read the 64-bit histograms (init_heap64, init_heap64_complete, init_heap64_semi_complete) no value loaded from the histogram is narrowed before it is '
+                 'tested against zero or packed into the heap word: a count that is a multiple of 2^32 is not taken for "symbol absent" (the symbol would get no code although it occurs)', floor=5, unit='histogram loads')
+    for fn in ('init_heap64', 'init_heap64_complete', 'init_heap64_semi_complete'):
+        f = mod.funcs.get(fn)
+        if f is None:
+            raise AnalysisBroken('%s not found' % fn)
+        P = irrules.prov(mod, f)
+        hp = [n for n, (ty, _) in enumerate(f.params) if ty == 'i64*']
+        if not hp:
+            raise AnalysisBroken('%s has no 64-bit histogram parameter' % fn)
+        loads = [i for i in f.all_insns() if i.op == 'load' and (i.ty or '') == 'i64' and any(a[0] == 'param' and a[1] in hp for a in P.atoms(i.ops[0]))]
+        for ld in loads:
+            R.instance()
+            bad = None
+            seen, work = set(), [ld.dst]
+            while work and bad is None:
+                v = work.pop()
+                if v in seen:
+                    continue
+                seen.add(v)
+                for u_ in f.all_insns():
+                    if v in (u_.ops or []):
+                        if u_.op == 'trunc':
+                            bad = u_
+                            break
+                        if u_.op in ('select', 'freeze') and u_.dst:
+                            work.append(u_.dst)
+                    if u_.op == 'phi' and any(x == v for x, _ in u_.extra['incoming']) and u_.dst:
+                        work.append(u_.dst)
+            R.check(bad is None, mod.where(f, bad or ld), '%s narrows a 64-bit histogram count to %s: counts that are multiples of 2^%s look like zero, the symbol gets no code and every occurrence is encoded with zero bits' %
+                    (fn, bad.ty if bad else '', (bad.ty or 'i32')[1:] if bad else ''), key='L-HIST64-WIDTH|%s|%s' % (fn, ld.line or 0), sample='%s: histogram counts used at 64 bits' % fn)
 
 
 def check_eob_always(rep, mod):
